@@ -28,6 +28,16 @@
   `proxGradStep_vector_strong_inf/_unique_inf`, `inactiveIndices_iff_locally_shift_inf`).
   `projMultipliers` takes the flags "bound is infinite" themselves, so needs no stand-in.
 
+  RETURNED VALUE OF THE REAL `L1Norm::prox`, GENERIC `prox_step`.  `l1ProxScalarWeight` /
+  `l1ProxVectorWeight` (Model/C15.lean) are `L1Norm::prox` as a whole: the generated soft-threshold
+  per component, the generated returned values `λ * norm_1(out)` / `norm_1(out.cwiseProduct(λ))`,
+  the `λ == 0` branch and the empty-weight default (all ones), the branch structure pinned by the
+  translator.  `l1ProxScalarWeight_returns_h`, `l1ProxVectorWeight_returns_h`: the value is `h(out)`;
+  `l1ProxScalarWeight_unique`, `l1ProxVectorWeight_unique`: `out` is the unique minimiser.
+  `proxStepDefault` is the generic default of the `prox_step` customisation point with its two
+  assignments generated from prox.hpp; `proxStepDefault_spec`: as coded = as documented
+  (`out = prox(in + γ_fwd·fwd_step)`, `fb_step = out − in`, returns `h(out)`), for any `prox`.
+
   NUCLEAR NORM — what is proved and what is the oracle's contract (`nuclear_prox_partial`).
   `NuclearNorm::prox` calls `Eigen::BDCSVD` (third party, an oracle of the model) and then
   thresholds the singular values, computes the value, selects `rank` leading triplets and forms
@@ -1406,6 +1416,148 @@ theorem projMultipliers_inrange (lbInf ubInf : List Bool) (split : Nat) (M : α)
     vget (projMultipliers lbInf ubInf split M y) i = vget y i := by
   rw [projMultipliers_alm_rows _ _ _ _ _ i hi hs, max_eq_left h1, min_eq_left h2]
 
+/-! ### `L1Norm::prox` as a whole: output vector and returned value ("returns h at that point") -/
+
+theorem l1ProxScalarW_zero (γ a : α) : l1ProxScalarW 0 γ a = a := by
+  simp only [l1ProxScalarW, emax_eq_max, emin_eq_min, zero_mul, sub_zero, add_zero]
+  rcases le_total 0 a with h | h
+  · rw [max_eq_right h, min_eq_left le_rfl]
+  · rw [max_eq_left h, min_eq_right h]
+
+/-- the `λ == 0` branch: identity, value 0. -/
+theorem l1ProxScalarWeight_zero (γ : α) (v : Vec α) : l1ProxScalarWeight 0 γ v = (v, 0) := by
+  simp [l1ProxScalarWeight]
+
+/-- every component of the output is the generated soft-threshold of the input component — in the
+    `λ == 0` branch too (there the soft-threshold is the identity). -/
+theorem l1ProxScalarWeight_out (lam γ : α) (v : Vec α) :
+    (l1ProxScalarWeight lam γ v).1 = v.map (l1ProxScalarW lam γ) := by
+  unfold l1ProxScalarWeight
+  by_cases h : lam = 0
+  · subst h
+    simp only [beq_self_eq_true, if_true]
+    have : l1ProxScalarW (0 : α) γ = id := by funext a; exact l1ProxScalarW_zero γ a
+    rw [this, List.map_id]
+  · have : (lam == 0) = false := by simpa using h
+    simp only [this, Bool.false_eq_true, if_false]
+
+/-- **returns `h` at that point** (scalar weight, every `λ`, `λ = 0` included):
+    the returned value is `λ·‖out‖₁ = λ Σ|out_i|`. -/
+theorem l1ProxScalarWeight_returns_h (lam γ : α) (v : Vec α) :
+    (l1ProxScalarWeight lam γ v).2 = lam * (((l1ProxScalarWeight lam γ v).1.map (|·|)).sum) := by
+  unfold l1ProxScalarWeight
+  by_cases h : lam = 0
+  · subst h; simp
+  · have : (lam == 0) = false := by simpa using h
+    simp only [this, Bool.false_eq_true, if_false, l1ValueScalarW, norm1_eq_sum_abs]
+
+/-- the weights `L1Norm<Conf, vec>::prox` uses: all ones when constructed with an empty vector. -/
+def l1Weights (lam : Vec α) (n : Nat) : Vec α := if lam.length = 0 then List.replicate n 1 else lam
+
+theorem l1ProxVectorWeight_out (lam : Vec α) (γ : α) (v : Vec α) (i : Nat) (hi : i < v.length) :
+    vget (l1ProxVectorWeight lam γ v).1 i
+      = l1ProxScalarW (vget (l1Weights lam v.length) i) γ (vget v i) := by
+  unfold l1ProxVectorWeight l1Weights
+  simp only []
+  rw [vget_map_range _ _ _ hi]
+  by_cases h : lam.length = 0
+  · simp [h, l1ProxVectorW, l1ProxScalarW]
+  · simp [h, l1ProxVectorW, l1ProxScalarW]
+
+theorem l1ProxVectorWeight_length (lam : Vec α) (γ : α) (v : Vec α) :
+    (l1ProxVectorWeight lam γ v).1.length = v.length := by
+  simp [l1ProxVectorWeight]
+
+/-- **returns `h` at that point** (per-component weights `λ_i ≥ 0` of the size of the input, or the
+    empty-vector default = all ones): the returned value is `Σ λ_i |out_i|`. -/
+theorem l1ProxVectorWeight_returns_h (lam : Vec α) (γ : α) (v : Vec α)
+    (hl : ∀ l ∈ lam, 0 ≤ l) (hlen : lam.length = 0 ∨ lam.length = v.length) :
+    (l1ProxVectorWeight lam γ v).2
+      = ((List.range v.length).map fun i =>
+          vget (l1Weights lam v.length) i * |vget (l1ProxVectorWeight lam γ v).1 i|).sum := by
+  have hW : (l1Weights lam v.length).length = v.length := by
+    unfold l1Weights; split_ifs with h
+    · simp
+    · rcases hlen with h' | h' <;> [exact absurd h' h; exact h']
+  have hWnn : ∀ i < v.length, 0 ≤ vget (l1Weights lam v.length) i := by
+    intro i hi
+    unfold l1Weights; split_ifs with h
+    · simp [vget, List.getD_eq_getElem?_getD, hi]
+    · have : i < lam.length := by rcases hlen with h' | h' <;> [exact absurd h' h; omega]
+      have hm : vget lam i ∈ lam := by
+        simp only [vget, List.getD_eq_getElem?_getD, List.getElem?_eq_getElem this, Option.getD_some]
+        exact List.getElem_mem this
+      exact hl _ hm
+  have hWeq : (if (lam.length == 0) = true then v.map (fun _ => (1 : α)) else lam) = l1Weights lam v.length := by
+    unfold l1Weights
+    by_cases h : lam.length = 0
+    · simp [h, List.map_const']
+    · simp [h]
+  unfold l1ProxVectorWeight
+  simp only [hWeq, l1ValueVectorW]
+  rw [norm1_eq_sum_abs]
+  set W := l1Weights lam v.length with hWdef
+  set out := (List.range v.length).map fun i => l1ProxVectorW (vget W i) γ (vget v i) with hout
+  conv_lhs => rw [eq_map_range_vget W, hW]
+  unfold vmul vzip
+  rw [zipWith_map_range, List.map_map]
+  apply sum_map_range_congr
+  intro i hi
+  simp only [Function.comp]
+  rw [hout, vget_map_range _ _ _ hi, abs_mul, abs_of_nonneg (hWnn i hi)]
+  ring
+
+/-- **`L1Norm::prox` returns the unique minimiser** (whole vector, per-component weights incl. the
+    all-ones default and zero weights): strong form, hence `φ(u) ≤ φ(out) → u = out` componentwise. -/
+theorem l1ProxVectorWeight_unique (lam : Vec α) (γ : α) (v : Vec α) (hγ : 0 < γ)
+    (hl : ∀ i < v.length, 0 ≤ vget (l1Weights lam v.length) i) (u : Vec α)
+    (hle : ((List.range v.length).map fun i =>
+        vget (l1Weights lam v.length) i * |vget u i| + (vget u i - vget v i) ^ 2 / (2 * γ)).sum
+      ≤ ((List.range v.length).map fun i =>
+        vget (l1Weights lam v.length) i * |vget (l1ProxVectorWeight lam γ v).1 i|
+          + (vget (l1ProxVectorWeight lam γ v).1 i - vget v i) ^ 2 / (2 * γ)).sum) :
+    ∀ i < v.length, vget u i = vget (l1ProxVectorWeight lam γ v).1 i := by
+  apply vector_unique_of_strong v.length γ hγ _ _ _ _ _ hle
+  intro i hi
+  rw [l1ProxVectorWeight_out lam γ v i hi]
+  exact l1Prox_strong _ γ _ (hl i hi) hγ _
+
+theorem l1ProxScalarWeight_unique (lam γ : α) (v : Vec α) (hl : 0 ≤ lam) (hγ : 0 < γ) (u : Vec α)
+    (hle : ((List.range v.length).map fun i =>
+        lam * |vget u i| + (vget u i - vget v i) ^ 2 / (2 * γ)).sum
+      ≤ ((List.range v.length).map fun i =>
+        lam * |vget (l1ProxScalarWeight lam γ v).1 i|
+          + (vget (l1ProxScalarWeight lam γ v).1 i - vget v i) ^ 2 / (2 * γ)).sum) :
+    ∀ i < v.length, vget u i = vget (l1ProxScalarWeight lam γ v).1 i := by
+  apply vector_unique_of_strong v.length γ hγ _ _ _ _ _ hle
+  intro i hi
+  rw [l1ProxScalarWeight_out, vget_map _ _ _ hi]
+  exact l1Prox_strong lam γ _ hl hγ _
+
+/-! ### The generic `prox_step` default (`prox_step_fn`: prox_step from prox) -/
+
+/-- **as coded = as documented**: for any functor's `prox` (a function `input ↦ (out, h)` with the
+    step size already applied), the generic default returns `h(out)`, `out = prox(in + γ_fwd·fwd_step)`
+    and `fb_step = out − in` ("p equals output minus input"), componentwise. -/
+theorem proxStepDefault_spec (prox : Vec α → Vec α × α) (inp fwd : Vec α) (γfwd : α) :
+    (proxStepDefault prox inp fwd γfwd).1
+        = (prox ((List.range inp.length).map fun i => vget inp i + γfwd * vget fwd i)).2 ∧
+    (proxStepDefault prox inp fwd γfwd).2.1
+        = (prox ((List.range inp.length).map fun i => vget inp i + γfwd * vget fwd i)).1 ∧
+    ∀ i < inp.length, vget (proxStepDefault prox inp fwd γfwd).2.2 i
+        = vget (proxStepDefault prox inp fwd γfwd).2.1 i - vget inp i := by
+  refine ⟨rfl, rfl, fun i hi => ?_⟩
+  simp only [proxStepDefault, proxStepDefaultFb, proxStepDefaultFwd]
+  rw [vget_map_range _ _ _ hi]
+
+/-- instantiated for `L1Norm` with a scalar weight: the output of the generic forward-backward step is
+    the unique minimiser of `λ‖u‖₁ + ‖u − (in + γ_fwd·d)‖²/(2γ)` and the returned value is `λ‖out‖₁`. -/
+theorem proxStepDefault_l1_returns_h (lam γ γfwd : α) (inp fwd : Vec α) :
+    (proxStepDefault (l1ProxScalarWeight lam γ) inp fwd γfwd).1
+      = lam * (((proxStepDefault (l1ProxScalarWeight lam γ) inp fwd γfwd).2.1.map (|·|)).sum) := by
+  rw [(proxStepDefault_spec _ inp fwd γfwd).1, (proxStepDefault_spec _ inp fwd γfwd).2.1]
+  exact l1ProxScalarWeight_returns_h lam γ _
+
 /-! ### Non-vacuity: concrete instances meeting the hypotheses (over ℚ) -/
 
 example : (projGradStepBox (1/2 : ℚ) 1 4 0 3).2 = 0 ∧ (0:ℚ) ≤ 3 := by
@@ -1522,5 +1674,17 @@ example := inactiveIndices_iff_locally_shift_inf [(1:ℚ)] 1 [5, 0] [1, 0] [-100
   (by intro i hi; have : i = 0 ∨ i = 1 := by simp at hi; omega
       rcases this with rfl | rfl <;> norm_num [Far, lamAt, vget, abs_one])
   0
+
+/-! #### `L1Norm::prox` as a whole and the generic `prox_step` default: evaluated instances -/
+example : l1ProxScalarWeight (2:ℚ) (1/2) [3, -1/2, -4] = ([2, 0, -3], 10) := by decide +kernel
+example : l1ProxScalarWeight (0:ℚ) (1/2) [3, -1/2] = ([3, -1/2], 0) := by decide +kernel
+example : l1ProxVectorWeight ([] : Vec ℚ) (1/2) [3, -1/4] = ([5/2, 0], 5/2) := by decide +kernel
+example : l1ProxVectorWeight [(1:ℚ), 0, 2] (1/2) [3, -4, 1/2] = ([5/2, -4, 0], 5/2) := by decide +kernel
+example := l1ProxVectorWeight_returns_h [(1:ℚ), 0, 2] (1/2) [3, -4, 1/2]
+  (by intro l hl; simp at hl; rcases hl with rfl | rfl | rfl <;> norm_num) (Or.inr rfl)
+example := l1ProxVectorWeight_returns_h ([] : Vec ℚ) (1/2) [3, -1/4] (by simp) (Or.inl rfl)
+-- γ = 1/2 ≠ 1, γ_fwd = −2 ≠ ±γ: in + γ_fwd·d = (0, 4), out = (0, 7/2), fb_step = out − in, h = 7/2
+example : proxStepDefault (l1ProxScalarWeight (1:ℚ) (1/2)) [1, 2] [1/2, -1] (-2)
+    = (7/2, [0, 7/2], [-1, 3/2]) := by decide +kernel
 
 end Alpaqa.Props.C15
